@@ -301,7 +301,9 @@ AllDone == \A p \in Proc : pc[p] = "done"
 (***** the abstract property (module BucketRace) on complete behaviours *****)
 Final == [bucket |-> bdir, owned |-> bdir /\ acl # "none", obj |-> IF bdir THEN obj ELSE "none",
           upl |-> IF bdir THEN upl ELSE "none"]
-History == [ops |-> [p \in Proc |-> [op |-> Op(p), res |-> ops[p].res, part |-> ops[p].part]], final |-> Final]
+\* (the second creator of a scenario, "c2", is another account)
+History == [ops |-> [p \in Proc |-> [op |-> Op(p), res |-> ops[p].res, part |-> ops[p].part,
+                                  who |-> IF p = "c2" THEN "user2" ELSE "root"]], final |-> Final]
 
 Report ==
     /\ AllDone /\ Emit
